@@ -166,7 +166,7 @@ Print Assumptions C14_wrun_blocks.
      * authenticated mode: exactly the content bytes lying in the first m bytes of the block
        stream, ew_ctr * CHUNK <= m (all completed chunks; all of chunk 0, D2).
    Compression: parts 3 and 4. *)
-From MLA Require RepairSize.
+From MLA Require RepairSize RepairSize2 RepairSize2Flush.
 From MLA Require Import Repair RepairSpec RepairPure RepairProofs2 RepairProofs5 RepairProofs6 EncAuthFs Run
   ComposeRdOnly ComposeRepair ComposeWriterRun ComposeFlush.
 
@@ -226,19 +226,20 @@ Theorem C14_flush_then_repair_enc {LIM : Limit} :
     ew_write_pieces CHUNK CIPHERBUF ks tagc fuelw ew_init pieces = Ok es ->
     len (w_out s) / CHUNK < 2 ^ 32 -> len (ew_out es) / (CHUNK + TAG) + 2 <= 2 ^ 32 ->
   forall fuel : nat, (N.to_nat (len (w_out s)) < fuel)%nat ->
+    (* SIZE PREMISE (instead of "finalize did not fail with SerializationError"), as in
+       C14_flush_then_repair_plain: on the block stream the top layer had been handed.  It is
+       implied by the same bound on the destination bytes, C14_flush_stream_le_wire:
+       len (w_out s) <= len (ew_out es) *)
+    8 + 3 * len (w_out s) <= N.min lim (2 ^ 32 - 1) ->
     exists e0 b, fs_open CHUNK TAG ks (Cursor (ew_out es)) 0 = (e0, Ok b) /\
-    (* finalize did not fail with SerializationError: the footer of the repaired archive is
-       within BINCODE_MAX_DESERIALIZE (lim) and the u32 length field *)
-    (repair FNMAX CACHE TS TC TA TE H (FsEnc CHUNK TAG ks tagc true (Cursor (ew_out es))) fuel e0 w_init
-       <> Err EDeser ->
     exists bl out obl,
       w_out s = body TS TC TA TE bl /\ wf_blocks FNMAX H bl /\ w_files s = name_list (files_of bl) /\
       repair FNMAX CACHE TS TC TA TE H (FsEnc CHUNK TAG ks tagc true (Cursor (ew_out es))) fuel e0 w_init
         = Ok (FEofNextBlock, unfinished_of (files_of bl), out) /\
       good_output FNMAX TS TC TA TE H out obl /\ Forall2 same (files_of bl) (files_of obl) /\
       forall name id, In (name, id) (w_files s) ->
-        content_of (files_of obl) name = appended FNMAX TS TC TA TE H order id w_init ops).
-Proof. exact flush_then_repair_enc. Qed.
+        content_of (files_of obl) name = appended FNMAX TS TC TA TE H order id w_init ops.
+Proof. exact RepairSize2Flush.flush_then_repair_enc_size. Qed.
 
 Theorem C14_flush_then_repair_enc_auth {LIM : Limit} :
   forall FNMAX CACHE : N, FNMAX < 2 ^ 64 -> 0 < CACHE ->
@@ -256,9 +257,9 @@ Theorem C14_flush_then_repair_enc_auth {LIM : Limit} :
     ew_write_pieces CHUNK CIPHERBUF ks tagc fuelw ew_init pieces = Ok es ->
     len (w_out s) / CHUNK < 2 ^ 32 -> len (ew_out es) / (CHUNK + TAG) + 2 <= 2 ^ 32 ->
   forall fuel : nat, (N.to_nat (len (w_out s)) < fuel)%nat ->
+    (* size premise, as in C14_flush_then_repair_enc *)
+    8 + 3 * len (w_out s) <= N.min lim (2 ^ 32 - 1) ->
     exists e0 b, fs_open CHUNK TAG ks (Cursor (ew_out es)) 0 = (e0, Ok b) /\
-    (repair FNMAX CACHE TS TC TA TE H (FsEnc CHUNK TAG ks tagc false (Cursor (ew_out es))) fuel e0 w_init
-       <> Err EDeser ->
     exists m bl status unfinished out obl,
       ew_ctr es * CHUNK <= m /\ m <= len (w_out s) /\ (ew_ctr es = 0 -> m = len (w_out s)) /\
       w_out s = body TS TC TA TE bl /\ wf_blocks FNMAX H bl /\ w_files s = name_list (files_of bl) /\
@@ -266,8 +267,32 @@ Theorem C14_flush_then_repair_enc_auth {LIM : Limit} :
         = Ok (status, unfinished, out) /\
       good_output FNMAX TS TC TA TE H out obl /\
       (forall f, In f (files_of bl) -> content_of (files_of obl) (f_name f) = present (f_id f) bl m) /\
-      (forall id, data_of_id (files_of bl) id = appended FNMAX TS TC TA TE H order id w_init ops)).
-Proof. exact flush_then_repair_enc_auth. Qed.
+      (forall id, data_of_id (files_of bl) id = appended FNMAX TS TC TA TE H order id w_init ops).
+Proof. exact RepairSize2Flush.flush_then_repair_enc_auth_size. Qed.
+
+(* the block stream is no longer than what the encryption writer handed to the destination (the
+   fail-safe decryptor never delivers more than the ciphertext holds, RepairSize2.len_fs_output_le):
+   the size premise of the encryption theorems follows from the same bound on the destination bytes *)
+Theorem C14_flush_stream_le_wire :
+  forall FNMAX CACHE : N, FNMAX < 2 ^ 64 -> 0 < CACHE ->
+  forall TS TC TA TE : N,
+    TS <> TC /\ TS <> TA /\ TS <> TE /\ TC <> TA /\ TC <> TE /\ TA <> TE ->
+  forall H : bytes -> bytes, (forall x, len (H x) = 32) ->
+  forall s : wstate, w_next s < 2 ^ 64 ->
+  forall CHUNK TAG CIPHERBUF : N, 0 < CHUNK -> 0 < TAG ->
+  forall ks tagc, (forall i c, len (tagc i c) = TAG) ->
+  forall pieces fuelw es,
+    concat pieces = w_out s ->
+    ew_write_pieces CHUNK CIPHERBUF ks tagc fuelw ew_init pieces = Ok es ->
+    len (w_out s) / CHUNK < 2 ^ 32 -> len (ew_out es) / (CHUNK + TAG) + 2 <= 2 ^ 32 ->
+    len (w_out s) <= len (ew_out es).
+Proof. exact RepairSize2Flush.flush_stream_le_wire. Qed.
+
+(* the general fact: either mode of the fail-safe decryptor delivers at most len w bytes of any w *)
+Theorem C14_decryptor_output_le_input :
+  forall CHUNK TAG : N, forall ks : N -> N -> N, 0 < CHUNK -> forall (tagc : N -> bytes -> bytes) (unauth : bool) (w : bytes),
+    len (ComposeRepair.fs_output CHUNK TAG ks tagc unauth w) <= len w.
+Proof. exact RepairSize2.len_fs_output_le. Qed.
 
 (* non-vacuity: the run of C14_example_archive (two files open, 70 + 2 bytes appended, one
    empty append, flush), CHUNK = 64, TAG = 16, CIPHERBUF = 24, toy cipher.  The examples are
@@ -303,17 +328,10 @@ Proof.
               64 16 24 ltac:(lia) ltac:(lia) toy_ks (toy_tag 16) (len_toy_tag 16)
               [takeN 30 (w_out (fst ex_run)); dropN 30 (w_out (fst ex_run))] 300%nat ex_es
               ltac:(vm_compute; reflexivity) ltac:(vm_compute; reflexivity)
-              ltac:(vm_compute; reflexivity) ltac:(vm_compute; discriminate) 300%nat ltac:(vm_compute; lia))
-    as (e0 & b & Ho & Hcon).
-  assert (Hser : repair 48 4 0 1 254 255 ex_H (FsEnc 64 16 toy_ks (toy_tag 16) true (Cursor (ew_out ex_es))) 300 e0 w_init
-                 <> Err EDeser).
-  { assert (Hv : match fs_open 64 16 toy_ks (Cursor (ew_out ex_es)) 0 with
-                 | (e0', _) =>
-                   repair 48 4 0 1 254 255 ex_H (FsEnc 64 16 toy_ks (toy_tag 16) true (Cursor (ew_out ex_es))) 300 e0' w_init
-                   <> Err EDeser
-                 end) by (vm_compute; discriminate).
-    rewrite Ho in Hv. exact Hv. }
-  destruct (Hcon Hser) as (bl & out & obl & Hout & Hwf & Hfiles & Hr & Hg & Hs & Hc).
+              ltac:(vm_compute; reflexivity) ltac:(vm_compute; discriminate) 300%nat ltac:(vm_compute; lia)
+              (* the size premise: 8 + 3 * 142 <= min 536870912 (2^32 - 1) *)
+              ltac:(vm_compute; discriminate))
+    as (e0 & b & Ho & bl & out & obl & Hout & Hwf & Hfiles & Hr & Hg & Hs & Hc).
   exists e0, b, out, obl. split; [exact Ho|].
   assert (Hu : unfinished_of (files_of bl) = [[97]; [98]]).
   { assert (Hv : match fs_open 64 16 toy_ks (Cursor (ew_out ex_es)) 0 with
@@ -333,6 +351,8 @@ Print Assumptions C14_clean_run_blocks.
 Print Assumptions C14_flush_then_repair_plain.
 Print Assumptions C14_flush_then_repair_enc.
 Print Assumptions C14_flush_then_repair_enc_auth.
+Print Assumptions C14_flush_stream_le_wire.
+Print Assumptions C14_decryptor_output_le_input.
 Print Assumptions C14_example_flush_then_repair.
 (* ====================================================================================
    Compressed archives: the fail-safe decompression reader (model theories/CompFailSafe.v of
@@ -386,6 +406,7 @@ Print Assumptions C14_fs_comp_example.
    `post`.  `appended id w_init pre` = the bytes appended to file id before the flush.
    ==================================================================================== *)
 From MLA Require Import EncAuth RepairMask ComposeFlushAt CompFailSafeSticky FsCompStream ComposeFsComp ComposeFlushComp.
+(* RepairSize2Flush: Require'd above (qualified names) *)
 
 Section C14_flush_at_any_position.
   Context {LIM : Limit}.
@@ -415,8 +436,11 @@ Section C14_flush_at_any_position.
   Theorem C14_flush_durable_plain :
     forall (S : Stream) (I : st S -> N -> Prop) (s0 : st S) (fuel : nat),
       RdRefines (rd S) (w_out s) I -> I s0 0 -> (N.to_nat (len (w_out s)) < fuel)%nat ->
-      (* finalize did not fail with SerializationError (footer within BINCODE_MAX_DESERIALIZE) *)
-      repair FNMAX CACHE TS TC TA TE H S fuel s0 w_init <> Err EDeser ->
+      (* SIZE PREMISE (instead of "finalize did not fail with SerializationError"): the input is
+         small enough for the footer of the repaired archive to fit BINCODE_MAX_DESERIALIZE (lim)
+         and its u32 length field; RepairSize.repair_footer_fits: the footer map takes at most
+         8 + 3 * (input bytes) bytes.  Production limit: inputs up to 178956968 bytes (~170 MiB) *)
+      8 + 3 * len (w_out s) <= N.min lim (2 ^ 32 - 1) ->
       exists bl out obl,
         w_out s = body TS TC TA TE bl /\ wf_blocks FNMAX H bl /\ w_files s = name_list (files_of bl) /\
         repair FNMAX CACHE TS TC TA TE H S fuel s0 w_init
@@ -425,7 +449,7 @@ Section C14_flush_at_any_position.
         forall name id, In (name, id) (w_files s) ->
           content_of (files_of obl) name = appended FNMAX TS TC TA TE H order id w_init pre.
   Proof.
-    exact (flush_at_plain FNMAX CACHE HFN HCACHE TS TC TA TE Htags H H_len order pre post sfin rsall
+    exact (RepairSize2Flush.flush_at_plain_size FNMAX CACHE HFN HCACHE TS TC TA TE Htags H H_len order pre post sfin rsall
              Hrun Hclean Hops Hnext).
   Qed.
 
@@ -452,18 +476,19 @@ Section C14_flush_at_any_position.
     (* DataEvenUnauthenticated: EXACTLY what was appended *)
     Theorem C14_flush_durable_enc :
       forall fuel : nat, (N.to_nat (len (w_out s)) < fuel)%nat ->
+      (* size premise, on the block stream handed to the encryption writer; implied by the same
+         bound on the destination bytes (C14_flush_stream_le_wire: len (w_out s) <= len (ew_out es)) *)
+      8 + 3 * len (w_out s) <= N.min lim (2 ^ 32 - 1) ->
       exists e0 b, fs_open CHUNK TAG ks Sin i0 = (e0, Ok b) /\
-      (* finalize did not fail with SerializationError (footer within BINCODE_MAX_DESERIALIZE) *)
-      (repair FNMAX CACHE TS TC TA TE H (FsEnc CHUNK TAG ks tagc true Sin) fuel e0 w_init <> Err EDeser ->
       exists bl out obl,
         w_out s = body TS TC TA TE bl /\ wf_blocks FNMAX H bl /\ w_files s = name_list (files_of bl) /\
         repair FNMAX CACHE TS TC TA TE H (FsEnc CHUNK TAG ks tagc true Sin) fuel e0 w_init
           = Ok (FEofNextBlock, unfinished_of (files_of bl), out) /\
         good_output FNMAX TS TC TA TE H out obl /\ Forall2 same (files_of bl) (files_of obl) /\
         forall name id, In (name, id) (w_files s) ->
-          content_of (files_of obl) name = appended FNMAX TS TC TA TE H order id w_init pre).
+          content_of (files_of obl) name = appended FNMAX TS TC TA TE H order id w_init pre.
     Proof.
-      exact (flush_at_enc FNMAX CACHE HFN HCACHE TS TC TA TE Htags H H_len order pre post sfin rsall
+      exact (RepairSize2Flush.flush_at_enc_size FNMAX CACHE HFN HCACHE TS TC TA TE Htags H H_len order pre post sfin rsall
                Hrun Hclean Hops Hnext CHUNK TAG CIPHERBUF HCHUNK HTAG ks tagc Htagc pieces fuelw es
                Hpieces Hew Hbigp Hbig Sin Rin Hin i0 Hi0).
     Qed.
@@ -472,8 +497,8 @@ Section C14_flush_at_any_position.
        m covering every completed encryption chunk (and all of chunk 0, D2) *)
     Theorem C14_flush_durable_enc_auth :
       forall fuel : nat, (N.to_nat (len (w_out s)) < fuel)%nat ->
+      8 + 3 * len (w_out s) <= N.min lim (2 ^ 32 - 1) ->     (* size premise, as above *)
       exists e0 b, fs_open CHUNK TAG ks Sin i0 = (e0, Ok b) /\
-      (repair FNMAX CACHE TS TC TA TE H (FsEnc CHUNK TAG ks tagc false Sin) fuel e0 w_init <> Err EDeser ->
       exists m bl status unfinished out obl,
         ew_ctr es * CHUNK <= m /\ m <= len (w_out s) /\ (ew_ctr es = 0 -> m = len (w_out s)) /\
         w_out s = body TS TC TA TE bl /\ wf_blocks FNMAX H bl /\ w_files s = name_list (files_of bl) /\
@@ -481,9 +506,9 @@ Section C14_flush_at_any_position.
           = Ok (status, unfinished, out) /\
         good_output FNMAX TS TC TA TE H out obl /\
         (forall f, In f (files_of bl) -> content_of (files_of obl) (f_name f) = present (f_id f) bl m) /\
-        (forall id, data_of_id (files_of bl) id = appended FNMAX TS TC TA TE H order id w_init pre)).
+        (forall id, data_of_id (files_of bl) id = appended FNMAX TS TC TA TE H order id w_init pre).
     Proof.
-      exact (flush_at_enc_auth FNMAX CACHE HFN HCACHE TS TC TA TE Htags H H_len order pre post sfin rsall
+      exact (RepairSize2Flush.flush_at_enc_auth_size FNMAX CACHE HFN HCACHE TS TC TA TE Htags H H_len order pre post sfin rsall
                Hrun Hclean Hops Hnext CHUNK TAG CIPHERBUF HCHUNK HTAG ks tagc Htagc pieces fuelw es
                Hpieces Hew Hbigp Hbig Sin Rin Hin i0 Hi0).
     Qed.
@@ -517,9 +542,10 @@ Section C14_flush_at_any_position.
     Theorem C14_flush_durable_comp :
       forall (Sin : Stream) (Rin : st Sin -> N -> Prop) (i0 : st Sin) (fuel : nat),
         SrcRefines Sin w Rin -> Rin i0 0 -> (N.to_nat (len (w_out s)) < fuel)%nat ->
-        (* finalize did not fail with SerializationError (footer within BINCODE_MAX_DESERIALIZE) *)
-        repair FNMAX CACHE TS TC TA TE H (FsComp BLOCK FSBUF dstate dinit dstep pfuel Sin) fuel (FReady i0) w_init
-          <> Err EDeser ->
+        (* size premise, on the DECOMPRESSED stream (what the repair loop reads: fs_spec D bs w =
+           w_out s, Hflush).  No bound in the compressed size len w exists: the decompressor
+           expands (D is any function under the DecoderLaws) *)
+        8 + 3 * len (w_out s) <= N.min lim (2 ^ 32 - 1) ->
         exists bl status out obl,
           w_out s = body TS TC TA TE bl /\ wf_blocks FNMAX H bl /\ w_files s = name_list (files_of bl) /\
           repair FNMAX CACHE TS TC TA TE H (FsComp BLOCK FSBUF dstate dinit dstep pfuel Sin) fuel (FReady i0) w_init
@@ -528,7 +554,7 @@ Section C14_flush_at_any_position.
           forall name id, In (name, id) (w_files s) ->
             content_of (files_of obl) name = appended FNMAX TS TC TA TE H order id w_init pre.
     Proof.
-      exact (flush_at_comp FNMAX CACHE HFN HCACHE TS TC TA TE Htags H H_len order pre post sfin rsall
+      exact (RepairSize2Flush.flush_at_comp_size FNMAX CACHE HFN HCACHE TS TC TA TE Htags H H_len order pre post sfin rsall
                Hrun Hclean Hops Hnext BLOCK FSBUF HFSBUF HBLOCK32 dstate dinit dstep D fin L tail Htail
                bs Hbs w Hw Hflush pfuel Hpf).
     Qed.
@@ -554,10 +580,8 @@ Section C14_flush_at_any_position.
 
       Theorem C14_flush_durable_comp_enc :
         forall fuel : nat, (N.to_nat (len (w_out s)) < fuel)%nat ->
+        8 + 3 * len (w_out s) <= N.min lim (2 ^ 32 - 1) ->     (* size premise, as C14_flush_durable_comp *)
         exists e0 b, fs_open CHUNK TAG ks Sin i0 = (e0, Ok b) /\
-        (repair FNMAX CACHE TS TC TA TE H
-                (FsComp BLOCK FSBUF dstate dinit dstep pfuel (FsEnc CHUNK TAG ks tagc true Sin)) fuel
-                (@FReady dstate (FsEnc CHUNK TAG ks tagc true Sin) e0) w_init <> Err EDeser ->
         exists bl status out obl,
           w_out s = body TS TC TA TE bl /\ wf_blocks FNMAX H bl /\ w_files s = name_list (files_of bl) /\
           repair FNMAX CACHE TS TC TA TE H
@@ -566,9 +590,9 @@ Section C14_flush_at_any_position.
             = Ok (status, unfinished_of (files_of bl), out) /\
           good_output FNMAX TS TC TA TE H out obl /\ Forall2 same (files_of bl) (files_of obl) /\
           forall name id, In (name, id) (w_files s) ->
-            content_of (files_of obl) name = appended FNMAX TS TC TA TE H order id w_init pre).
+            content_of (files_of obl) name = appended FNMAX TS TC TA TE H order id w_init pre.
       Proof.
-        exact (flush_at_comp_enc FNMAX CACHE HFN HCACHE TS TC TA TE Htags H H_len order pre post sfin rsall
+        exact (RepairSize2Flush.flush_at_comp_enc_size FNMAX CACHE HFN HCACHE TS TC TA TE Htags H H_len order pre post sfin rsall
                  Hrun Hclean Hops Hnext BLOCK FSBUF HFSBUF HBLOCK32 dstate dinit dstep D fin L tail Htail
                  bs Hbs w Hw Hflush pfuel Hpf CHUNK TAG CIPHERBUF HCHUNK HTAG ks tagc Htagc pieces fuelw es
                  Hpieces Hew Hbigp Hbig Sin Rin Hin i0 Hi0).
@@ -579,10 +603,8 @@ Section C14_flush_at_any_position.
          completed encryption chunk *)
       Theorem C14_flush_durable_comp_enc_auth :
         forall fuel : nat, (N.to_nat (len (w_out s)) < fuel)%nat ->
+        8 + 3 * len (w_out s) <= N.min lim (2 ^ 32 - 1) ->     (* size premise, as C14_flush_durable_comp *)
         exists e0 b, fs_open CHUNK TAG ks Sin i0 = (e0, Ok b) /\
-        (repair FNMAX CACHE TS TC TA TE H
-                (FsComp BLOCK FSBUF dstate dinit dstep pfuel (FsEnc CHUNK TAG ks tagc false Sin)) fuel
-                (@FReady dstate (FsEnc CHUNK TAG ks tagc false Sin) e0) w_init <> Err EDeser ->
         exists m k bl status unfinished out obl,
           ew_ctr es * CHUNK <= m /\ m <= len w /\ (ew_ctr es = 0 -> m = len w) /\
           k = len (fs_spec D bs (takeN m w)) /\ k <= len (w_out s) /\
@@ -593,9 +615,9 @@ Section C14_flush_at_any_position.
             = Ok (status, unfinished, out) /\
           good_output FNMAX TS TC TA TE H out obl /\
           (forall f, In f (files_of bl) -> content_of (files_of obl) (f_name f) = present (f_id f) bl k) /\
-          (forall id, data_of_id (files_of bl) id = appended FNMAX TS TC TA TE H order id w_init pre)).
+          (forall id, data_of_id (files_of bl) id = appended FNMAX TS TC TA TE H order id w_init pre).
       Proof.
-        exact (flush_at_comp_enc_auth FNMAX CACHE HFN HCACHE TS TC TA TE Htags H H_len order pre post sfin rsall
+        exact (RepairSize2Flush.flush_at_comp_enc_auth_size FNMAX CACHE HFN HCACHE TS TC TA TE Htags H H_len order pre post sfin rsall
                  Hrun Hclean Hops Hnext BLOCK FSBUF HFSBUF HBLOCK32 dstate dinit dstep D fin L tail Htail
                  bs Hbs w Hw Hflush pfuel Hpf CHUNK TAG CIPHERBUF HCHUNK HTAG ks tagc Htagc pieces fuelw es
                  Hpieces Hew Hbigp Hbig Sin Rin Hin i0 Hi0).
@@ -629,14 +651,15 @@ Theorem C14_repair_over_decompressor {LIM : Limit} :
     wf_blocks FNMAX H bl -> In BEnd bl \/ trailer = [] ->
     prefix (fs_spec D bs w) (body TS TC TA TE bl ++ trailer) ->
     Rin i0 0 -> (N.to_nat (len (fs_spec D bs w)) < fuel)%nat ->
-    repair FNMAX CACHE TS TC TA TE H (FsComp BLOCK FSBUF dstate dinit dstep pfuel Sin) fuel (FReady i0) w_init
-      <> Err EDeser ->
+    (* size premise, on what the decompressor makes of the available bytes w (the stream the
+       repair loop reads; the decompressor expands, so not on len w) *)
+    8 + 3 * len (fs_spec D bs w) <= N.min lim (2 ^ 32 - 1) ->
     exists status out obl,
       repair FNMAX CACHE TS TC TA TE H (FsComp BLOCK FSBUF dstate dinit dstep pfuel Sin) fuel (FReady i0) w_init
         = Ok (status, unfinished_of (recovered bl (len (fs_spec D bs w))), out) /\
       good_output FNMAX TS TC TA TE H out obl /\
       Forall2 same (recovered bl (len (fs_spec D bs w))) (files_of obl).
-Proof. exact repair_fscomp_exact. Qed.
+Proof. exact RepairSize2Flush.repair_fscomp_exact_size. Qed.
 
 (* ... and a source whose first error is replaced by an eternal Ok(0) (the ghost stream
    RepairMask.Mask) gives the same output archive and unfinished list *)
@@ -662,19 +685,7 @@ Print Assumptions C14_repair_error_ending_source.
    appended, one empty and one refused append), then the flush, then more calls (an append,
    an end_file, finalize) of which nothing is asked.  Computed examples: the bincode limit is the
    production value of gen/Src.v (example-only section) *)
-(* `repair ... e0 w_init <> Err EDeser` on a concrete instance, e0 being the state returned by the
-   (concrete) fs_open of Ho: by evaluation *)
-Ltac prove_ser Ho :=
-  match type of Ho with ?op = (?es, _) =>
-    match goal with |- ?G =>
-      let P := eval pattern es in G in
-      match P with ?F _ =>
-        let Hv := fresh "Hv" in
-        assert (Hv : F (fst op)) by (vm_compute; discriminate);
-        rewrite Ho in Hv; exact Hv
-      end
-    end
-  end.
+(* the size premise 8 + 3 * 142 <= min lim (2^32 - 1) of each instance: by evaluation *)
 Section C14_examples_part4.
 Local Hint Extern 0 Limit => exact Src.BINCODE_MAX_DESERIALIZE_prod : typeclass_instances.
 Definition ex_pre : list wop :=
@@ -791,9 +802,8 @@ Proof.
               [takeN 30 ex_cw; dropN 30 ex_cw] 300%nat ex_ces ltac:(vm_compute; reflexivity) ex_ces_ok
               ltac:(vm_compute; reflexivity) ltac:(vm_compute; discriminate)
               (Cursor (ew_out ex_ces)) (fun st p => st = p) (cursor_seekable _) 0 eq_refl
-              400%nat ltac:(vm_compute; lia))
-    as (e0 & b & Ho & Hcon).
-  destruct (Hcon ltac:(prove_ser Ho)) as (bl & status & out & obl & Hout & Hwf & Hfiles & Hr & Hg & Hs & Hc).
+              400%nat ltac:(vm_compute; lia) ltac:(vm_compute; discriminate))
+    as (e0 & b & Ho & bl & status & out & obl & Hout & Hwf & Hfiles & Hr & Hg & Hs & Hc).
   exists e0, b, bl, status, out, obl. split; [exact Ho|]. split; [exact Hr|]. split; [exact Hg|]. split.
   - rewrite (Hc [97] 0) by (vm_compute; auto). vm_compute. reflexivity.
   - rewrite (Hc [98] 1) by (vm_compute; auto). vm_compute. reflexivity.
@@ -819,15 +829,48 @@ Proof.
               [takeN 30 ex_cw; dropN 30 ex_cw] 300%nat ex_ces ltac:(vm_compute; reflexivity) ex_ces_ok
               ltac:(vm_compute; reflexivity) ltac:(vm_compute; discriminate)
               (Cursor (ew_out ex_ces)) (fun st p => st = p) (cursor_seekable _) 0 eq_refl
-              400%nat ltac:(vm_compute; lia))
-    as (e0 & b & Ho & Hcon).
-  destruct (Hcon ltac:(prove_ser Ho))
-    as (m & k & bl & status & unf & out & obl & B1 & B2 & B3 & Hk & Hkl & Hout & Hwf & Hfiles & Hr & Hg & Hc & Hd).
+              400%nat ltac:(vm_compute; lia) ltac:(vm_compute; discriminate))
+    as (e0 & b & Ho & m & k & bl & status & unf & out & obl & B1 & B2 & B3 & Hk & Hkl & Hout & Hwf & Hfiles & Hr & Hg & Hc & Hd).
   exists e0, b, m, k, status, unf, out, obl. split; [exact Ho|].
   assert (E1 : ew_ctr ex_ces * 64 = 128) by (vm_compute; reflexivity).
   assert (E2 : len ex_cw = 145) by (vm_compute; reflexivity).
   rewrite E1 in B1. rewrite E2 in B2.
   split; [exact B1|]. split; [exact B2|]. split; [exact Hk|]. split; [exact Hr | exact Hg].
+Qed.
+
+(* encryption only, authenticated mode, through C14_flush_durable_enc_auth (size premise
+   8 + 3 * 142 <= min lim (2^32 - 1) by evaluation): the 142 bytes of block stream through the
+   encryption writer in two pieces (two completed chunks of 64, 14 bytes in the current one) *)
+Definition ex_es4 : ewstate :=
+  match ew_write_pieces 64 24 toy_ks (toy_tag 16) 300 ew_init [takeN 30 (w_out ex_s); dropN 30 (w_out ex_s)] with
+  | Ok es => es | _ => ew_init end.
+Lemma ex_es4_ok : ew_write_pieces 64 24 toy_ks (toy_tag 16) 300 ew_init [takeN 30 (w_out ex_s); dropN 30 (w_out ex_s)] = Ok ex_es4.
+Proof. vm_compute. reflexivity. Qed.
+
+Example C14_example_flush_at_enc_auth :
+  8 + 3 * len (w_out ex_s) <= N.min lim (2 ^ 32 - 1) /\ len (w_out ex_s) <= len (ew_out ex_es4) /\
+  exists e0 b m status unfinished out obl,
+    fs_open 64 16 toy_ks (Cursor (ew_out ex_es4)) 0 = (e0, Ok b) /\
+    128 <= m /\ m <= 142 /\
+    repair 48 4 0 1 254 255 ex_H (FsEnc 64 16 toy_ks (toy_tag 16) false (Cursor (ew_out ex_es4))) 300 e0 w_init
+      = Ok (status, unfinished, out) /\
+    good_output 48 0 1 254 255 ex_H out obl.
+Proof.
+  split; [vm_compute; discriminate|]. split; [vm_compute; discriminate|].
+  destruct (C14_flush_durable_enc_auth 48 4 ltac:(lia) ltac:(lia) 0 1 254 255
+              ltac:(repeat split; discriminate) ex_H ex_H_len (fun f => f) ex_pre ex_post (fst ex_all) (snd ex_all)
+              ex_all_run ex_pre_clean ex_pre_ok ex_s_next
+              64 16 24 ltac:(lia) ltac:(lia) toy_ks (toy_tag 16) (len_toy_tag 16)
+              [takeN 30 (w_out ex_s); dropN 30 (w_out ex_s)] 300%nat ex_es4 ltac:(vm_compute; reflexivity) ex_es4_ok
+              ltac:(vm_compute; reflexivity) ltac:(vm_compute; discriminate)
+              (Cursor (ew_out ex_es4)) (fun st p => st = p) (cursor_seekable _) 0 eq_refl
+              300%nat ltac:(vm_compute; lia) ltac:(vm_compute; discriminate))
+    as (e0 & b & Ho & m & bl & status & unf & out & obl & B1 & B2 & B3 & Hout & Hwf & Hfiles & Hr & Hg & Hc & Hd).
+  exists e0, b, m, status, unf, out, obl. split; [exact Ho|].
+  assert (E1 : ew_ctr ex_es4 * 64 = 128) by (vm_compute; reflexivity).
+  assert (E2 : len (w_out ex_s) = 142) by (vm_compute; reflexivity).
+  rewrite E1 in B1. change (m <= len (w_out ex_s)) in B2. rewrite E2 in B2.
+  split; [exact B1|]. split; [exact B2|]. split; [exact Hr | exact Hg].
 Qed.
 
 (* what the authenticated run actually yields: both files started, "a" complete (70 bytes lie
@@ -863,6 +906,7 @@ Print Assumptions C14_example_flush_at_plain.
 Print Assumptions C14_example_flush_at_comp.
 Print Assumptions C14_example_flush_at_comp_enc.
 Print Assumptions C14_example_flush_at_comp_enc_auth.
+Print Assumptions C14_example_flush_at_enc_auth.
 Print Assumptions C14_example_comp_enc_auth_values.
 Print Assumptions C14_example_repair_over_decompressor.
 
@@ -915,3 +959,75 @@ Print Assumptions C14_tie_fs_pass_sim.
 Theorem C14_tie_fs_comp_read_sim : ltac:(let t := type of @SrcTie3CompFs.fs_comp_read_sim in exact t).
 Proof. exact (@SrcTie3CompFs.fs_comp_read_sim). Qed.
 Print Assumptions C14_tie_fs_comp_read_sim.
+
+(* ================= work package `carry2`: C14 with GENERATED code on both sides =================
+   The TRANSLATED ArchiveWriter (gen/Src2.v, folded over a call list by CarryWriter.src_wrun) after ANY clean call
+   list — flushes anywhere; the bytes its destination holds are what a flush makes durable when no layer is below —
+   and the TRANSLATED convert_to_archive (gen/Src3r.v) over any RdBounded source refining those bytes read-only:
+   Ok, every started file is there, and every byte appended to every file before that point comes back.
+   ComposeFlush.flush_then_repair_plain through src_wrun_model and conv_of_repair (theories/Carry2Misc.v). *)
+From MLA Require SrcTie2 SrcTie3Repair SrcTie3RepairLoop CarryWriter CarryRepair Carry2Misc.
+From MLAGen Require Src2 Src3r.
+Theorem C14_flush_then_repair_plain_src {LIM : Limit} :
+  forall FNMAX CACHE : N, FNMAX < 2 ^ 64 -> 0 < CACHE ->
+  forall TS TC TA TE : N,
+    TS <> TC /\ TS <> TA /\ TS <> TE /\ TC <> TA /\ TC <> TE /\ TA <> TE ->
+  forall H : bytes -> bytes, (forall x, len (H x) = 32) ->
+  forall order ops (sw : Src2.ArchiveWriter) rs,
+    CarryWriter.src_wrun FNMAX TS TC TA TE H order CarryWriter.aw0 ops = (sw, rs) ->
+    Forall (fun x => clean (fst x) (snd x)) (combine ops rs) ->
+    Forall op_ok ops -> Src2.next_id sw < 2 ^ 64 ->
+  forall (S : Stream) (I : st S -> N -> Prop) (s0 : st S) (fuel : nat),
+    SrcTie3Repair.RdBounded S -> RdRefines (rd S) (Src2.dest sw) I -> I s0 0 -> (N.to_nat (len (Src2.dest sw)) < fuel)%nat ->
+    snd (Src3r.convert_to_archive FNMAX CACHE TS TC TA TE H (SrcTie2.footer_ser (fun f => f)) (fun _ => Ok tt) S
+           (SrcTie3RepairLoop.block_from FNMAX TS TC TA TE S) fuel s0 SrcTie3RepairLoop.aw_init) <> Err EDeser ->
+    exists bl (l : Src3r.Locals S) (e : Src3r.FailSafeReadError) obl,
+      Src2.dest sw = body TS TC TA TE bl /\ wf_blocks FNMAX H bl /\ Src2.files_info sw = name_list (files_of bl) /\
+      Src3r.convert_to_archive FNMAX CACHE TS TC TA TE H (SrcTie2.footer_ser (fun f => f)) (fun _ => Ok tt) S
+        (SrcTie3RepairLoop.block_from FNMAX TS TC TA TE S) fuel s0 SrcTie3RepairLoop.aw_init = (l, Ok e) /\
+      SrcTie3RepairLoop.status_of e = (FEofNextBlock, unfinished_of (files_of bl)) /\
+      good_output FNMAX TS TC TA TE H (SrcTie2.absW (Src3r.l_output S l)) obl /\ Forall2 same (files_of bl) (files_of obl) /\
+      forall name id, In (name, id) (Src2.files_info sw) ->
+        content_of (files_of obl) name = appended FNMAX TS TC TA TE H order id w_init ops.
+Proof. exact Carry2Misc.flush_then_repair_plain_src. Qed.
+
+(* non-vacuity THROUGH THE GENERATED CODE: the call list of C14_example_archive run by the translated writer,
+   its destination repaired by the translated function through a source of 3-byte reads; and the premises hold *)
+Section C14_examples_carry2.
+Local Hint Extern 0 Limit => exact Src.BINCODE_MAX_DESERIALIZE_prod : typeclass_instances.
+Definition ex_src_run := CarryWriter.src_wrun 48 0 1 254 255 ex_H (fun f => f) CarryWriter.aw0 ex_ops.
+Example C14_example_flush_then_repair_src_computed :
+  let w := Src2.dest (fst ex_src_run) in
+  match Src3r.convert_to_archive 48 4 0 1 254 255 ex_H (SrcTie2.footer_ser (fun f => f)) (fun _ => Ok tt) (Throttled w)
+          (SrcTie3RepairLoop.block_from 48 0 1 254 255 (Throttled w)) 300 (0, [3]) SrcTie3RepairLoop.aw_init with
+  | (l, Ok e) =>
+    SrcTie3RepairLoop.status_of e = (FEofNextBlock, [[97]; [98]]) /\
+    w_files (SrcTie2.absW (Src3r.l_output _ l)) = [([97], 0); ([98], 1)] /\ w = w_out (fst ex_run)
+  | _ => False
+  end.
+Proof. vm_compute. repeat split; reflexivity. Qed.
+Example C14_example_flush_then_repair_src :
+  let w := Src2.dest (fst ex_src_run) in
+  exists l e obl,
+    Src3r.convert_to_archive 48 4 0 1 254 255 ex_H (SrcTie2.footer_ser (fun f => f)) (fun _ => Ok tt) (Throttled w)
+      (SrcTie3RepairLoop.block_from 48 0 1 254 255 (Throttled w)) 300 (0, [3]) SrcTie3RepairLoop.aw_init = (l, Ok e) /\
+    good_output 48 0 1 254 255 ex_H (SrcTie2.absW (Src3r.l_output _ l)) obl /\
+    content_of (files_of obl) [97] = map N.of_nat (seq 0 70) /\ content_of (files_of obl) [98] = [7; 8].
+Proof.
+  intros w.
+  destruct (C14_flush_then_repair_plain_src 48 4 ltac:(lia) ltac:(lia) 0 1 254 255
+              ltac:(repeat split; discriminate) ex_H ex_H_len (fun f => f) ex_ops (fst ex_src_run) (snd ex_src_run)
+              ltac:(vm_compute; reflexivity)
+              ltac:(vm_compute; repeat constructor; cbn; discriminate)
+              ltac:(repeat constructor; cbn; lia) ltac:(vm_compute; reflexivity)
+              (Throttled w) _ (0, [3]) 300%nat (CarryRepair.RdBounded_throttled _)
+              (fun s q n HI => ref_rd _ _ _ (throttled_refines w) s q n HI)
+              ltac:(split; [reflexivity | apply N.le_0_l]) ltac:(vm_compute; lia) ltac:(vm_compute; discriminate))
+    as (bl & l & e & obl & _ & _ & _ & Hc & _ & Hg & _ & Hcon).
+  exists l, e, obl. split; [exact Hc|]. split; [exact Hg|]. split.
+  - rewrite (Hcon [97] 0) by (vm_compute; auto). vm_compute. reflexivity.
+  - rewrite (Hcon [98] 1) by (vm_compute; auto). vm_compute. reflexivity.
+Qed.
+End C14_examples_carry2.
+Print Assumptions C14_flush_then_repair_plain_src.
+Print Assumptions C14_example_flush_then_repair_src.
